@@ -144,6 +144,14 @@ def _c09_stale(case, mm):
             elif s["k"] == "inplace":
                 if any(a not in leaves or ref.owner.get(a) in mutated_owners for a in s.get("args", [])):
                     return True  # the written value has a history of its own
+                t_ = s["target"]
+                if ref.const.get(ref.owner.get(t_)) and any(
+                        ch in ref.env and (ref.owner.get(ch) == ref.owner.get(t_) or ref.tok(t_) in ref.D.get(ref.tok(ch), frozenset()))
+                        for ch in cleared):
+                    # ... or the target is a *constant* tensor whose consumer set a clearing step emptied: its consumers
+                    # cannot be re-routed to a placeholder, and Operation.backward never applies the InvalidBackprop test
+                    # to constant inputs, so they silently read the new contents
+                    return True
                 for a in s.get("args", []):
                     # ... or is a tensor whose own consumer set a clearing step emptied: the in-place statement is
                     # then a re-use of it in the sense of (i) (it refills the set)
